@@ -6,7 +6,20 @@ VERIF = os.path.dirname(os.path.dirname(os.path.abspath(__file__)))
 props = [json.loads(l) for l in open(os.path.join(VERIF, "properties.jsonl"))]
 
 # id -> (engine, category, technique, level text, level note, design ref)
+CRASH_NOTE = "Crash model: directory operations durable when issued; power loss keeps everything written before a file's last sync and any subset (last write possibly torn) of later writes. Oracle is differential against the uncrashed run of the same history."
 CHECKS = {
+ "C01": ("crashmon", "fault_enumeration", "recorded I/O log -> offline crash-image enumeration (process death + power-loss variants) -> real Db::open + dump oracle, continuation commit + reopen",
+         "Held on the explored crash points apart from the listed known findings: for every explored cut of the recorded I/O log and every crash variant the recovered content contains every transaction acknowledged before the cut, also after one more commit and reopen.",
+         CRASH_NOTE, "DESIGN.md §4.1 C01"),
+ "C02": ("crashmon", "fault_enumeration", "recorded I/O log -> offline crash-image enumeration -> real Db::open + prefix oracle over all read views incl. index lookups",
+         "Held on the explored crash points apart from the listed known findings: every image opens and equals the uncrashed content at a commit count between acknowledged and started.",
+         CRASH_NOTE, "DESIGN.md §4.1 C02"),
+ "C08": ("crashmon", "fault_enumeration", "single I/O fault injected at every I/O step index of an operation (error and short write), in-process and post-reopen all-or-nothing oracle",
+         "Held on the injected faults apart from the listed known findings: one failure at each I/O step of commit/compact/checkpoint/create_index/close, judged in process, after a later transaction and after two reopens.",
+         "Exactly one failure per run; the failing call performs no I/O or the declared short prefix.", "DESIGN.md §4.1 C08"),
+ "C17": ("crashmon", "fault_enumeration", "hostile log tails appended to exact acknowledgement-point images; open + dump + commit + reopen oracle",
+         "Held on the generated tails: truncations of the next transaction, zero fill, random bytes, hostile frame headers, valid frames without commit, bit flips; open succeeds, content is exactly the completely written transactions, later commits survive two reopens.",
+         "Base images are exact acknowledgement-point states, so the page file never runs ahead of the log.", "DESIGN.md §4.1 C17"),
  "C04": ("storemon", "exploration", "differential replay of generated histories (with/without reopen) + online dump comparison, witness shrinking",
          "Held on the generated histories: every dump view (ids, labels, properties, both neighbour directions with multiplicity) is compared step by step between a database that is reopened at generated points and one that is not, and before/after every reopen. Sampling of histories, not a proof.",
          "Well-formed writes only; release build; hooks compiled in and idle.", "DESIGN.md §4.2 C04"),
